@@ -383,6 +383,48 @@ func equalModuloManaged(sp *spec.Spec, in, out string) (bool, string) {
 		if fmt.Sprint(fa) != fmt.Sprint(fb) {
 			return false, fmt.Sprintf("tag %d <%s>: input attributes %q, output attributes %q", i, a[i].Name, fa, fb)
 		}
+		// link hardening adds exactly what the options ask for: conforming documents carry no rel or
+		// target of their own on links under a link option, so the output's rel tokens and target are
+		// the sanitiser's. "Fully qualified" = the canonical href names a host (scheme://host or //host).
+		if sp.AnyLinkOption() && linkEls[a[i].Name] {
+			href, hasHref := "", false
+			for _, x := range b[i].Attrs {
+				if x.Key == "href" {
+					href, hasHref = x.Val, true
+				}
+			}
+			host := strings.HasPrefix(href, "//") || strings.Contains(strings.SplitN(href, "?", 2)[0], "://")
+			want := map[string]bool{}
+			wantTarget := false
+			if hasHref {
+				if sp.NoFollow || (sp.NoFollowFQ && host) {
+					want["nofollow"] = true
+				}
+				if sp.NoReferrer || (sp.NoReferrerFQ && host) {
+					want["noreferrer"] = true
+				}
+				if sp.TargetBlank && host && a[i].Name == "a" {
+					wantTarget = true
+					want["noopener"] = true
+				}
+			}
+			got := map[string]bool{}
+			gotTarget, nRel := "", 0
+			for _, x := range b[i].Attrs {
+				switch x.Key {
+				case "rel":
+					nRel++
+					for _, t := range oracle.RelTokens(x.Val) {
+						got[t] = true
+					}
+				case "target":
+					gotTarget = x.Val
+				}
+			}
+			if fmt.Sprint(got) != fmt.Sprint(want) || nRel > 1 || (gotTarget == "_blank") != wantTarget || (gotTarget != "" && gotTarget != "_blank") {
+				return false, fmt.Sprintf("tag %d <%s href=%q>: the link options ask for rel tokens %v and target=_blank:%v, the output has rel tokens %v (%d rel attributes) and target %q", i, a[i].Name, href, keysOf(want), wantTarget, keysOf(got), nRel, gotTarget)
+			}
+		}
 		if !managed && a[i].Raw != b[i].Raw {
 			return false, fmt.Sprintf("tag %d: input %q, output %q", i, a[i].Raw, b[i].Raw)
 		}
@@ -476,4 +518,13 @@ func c07Class(why string) string {
 		return "extra-token"
 	}
 	return "token-differs"
+}
+
+func keysOf(m map[string]bool) []string {
+	out := []string{}
+	for k := range m {
+		out = append(out, k)
+	}
+	sort.Strings(out)
+	return out
 }
